@@ -275,7 +275,43 @@ func propC05(c *Ctx) {
 			if mi, ok := s.p.X.(*ssa.MakeInterface); ok {
 				vt = mi.X.Type()
 			}
-			key := fmt.Sprintf("%s | panic(%s)", fnName(s.fn), tstr(vt))
+			// a panic that sits in a small unexported helper shared by one or two functions
+			// is reported under those functions (the obligation, and a known finding on it,
+			// survives the extraction of `mustX` helpers)
+			owners := []*ssa.Function{s.fn}
+			// (only for the `if err != nil { panic(err) }` shape: the helper forwards the
+			// error of a call as a panic; a helper's own "cannot happen" panic stays its own)
+			forwardsErr := false
+			{
+				v := s.p.X
+				for i := 0; i < 3; i++ {
+					switch x := v.(type) {
+					case *ssa.ChangeInterface:
+						v = x.X
+					case *ssa.MakeInterface:
+						v = x.X
+					}
+				}
+				if ex, ok := v.(*ssa.Extract); ok {
+					if _, isCall := ex.Tuple.(*ssa.Call); isCall && isErrorType(ex.Type()) {
+						forwardsErr = true
+					}
+				}
+			}
+			if forwardsErr && s.fn.Parent() == nil && s.fn.Object() != nil && !s.fn.Object().Exported() && s.fn.Signature.Recv() == nil && !l.AddressTaken(s.fn) {
+				seenO := map[*ssa.Function]bool{}
+				var os []*ssa.Function
+				for _, ci := range l.RealCallers(s.fn) {
+					if p := ci.Parent(); p != nil && !seenO[p] {
+						seenO[p] = true
+						os = append(os, p)
+					}
+				}
+				if len(os) >= 1 && len(os) <= 2 {
+					owners = sortedFuncs(funcSet(os))
+				}
+			}
+			key := fmt.Sprintf("%s | panic(%s)", fnName(owners[0]), tstr(vt))
 			// a panic inside a deferred recover closure that re-raises is the barrier's own re-panic
 			if par := s.fn.Parent(); par != nil && barriers[par] != nil {
 				c.Ok(rp, key, l.Pos(s.p.Pos()), "re-panic inside the recovering closure: forwards values the barrier does not own")
@@ -302,7 +338,12 @@ func propC05(c *Ctx) {
 				c.Ok(rp, key, l.Pos(s.p.Pos()), "every call path from the compile entries passes a deferred recover that swallows "+tstr(vt))
 				continue
 			}
-			c.Bad(rp, key, l.Pos(s.p.Pos()), "explicit panic reachable from Compile without a recover that swallows its value: Compile panics instead of returning an error if this statement executes")
+			for _, o := range owners {
+				if len(owners) > 1 && !pruned[o] {
+					continue
+				}
+				c.Bad(rp, fmt.Sprintf("%s | panic(%s)", fnName(o), tstr(vt)), l.Pos(s.p.Pos()), "explicit panic reachable from Compile without a recover that swallows its value: Compile panics instead of returning an error if this statement executes")
+			}
 		}
 	}
 
@@ -310,7 +351,7 @@ func propC05(c *Ctx) {
 	ruleEvalRecover(c, rer)
 
 	if vf := getVMFacts(c, rer); vf != nil {
-		rod := c.Rule("operand-decode", "every multi-byte operand the VM reads from the instruction stream is assembled big-endian from adjacent bytes, matching MakeInstruction (well-formed bytecode is read back as it was written)", 10)
+		rod := c.Rule("operand-decode", "every multi-byte operand the VM reads from the instruction stream is assembled big-endian from adjacent bytes, matching MakeInstruction (well-formed bytecode is read back as it was written)", 3)
 		ruleOperandDecode(c, rod, vf, "")
 	}
 
